@@ -39,7 +39,7 @@ cls(
     callbacks={"send": Callback(name="send", effect="yields", record="sent")},
     inv=[
         # C06.serial: a new request can only be parsed (client IDLE) when no stream is attached
-        ("C06.serial", "implies(isinstance(self.connection, h11.Connection) and self.connection.their_state is h11.IDLE, self.stream is None)", "C06"),
+        ("C06.serial", "implies(isinstance(self.connection, h11.Connection) and self.connection.their_state is h11.IDLE, self.stream is None)", "C06,C03"),
         ("C18.ka.count", "self.keep_alive_requests >= 0", "C18"),
     ],
     rely=[("H11.rely.requests-monotone", "self.keep_alive_requests >= old(self.keep_alive_requests)", "C06,C18")],
